@@ -1,6 +1,7 @@
 package main
 
 import (
+	"time"
 	"bytes"
 	"errors"
 	"fmt"
@@ -210,7 +211,9 @@ func runMemCase(c *memCase) {
 		}
 		var ob memObs
 		ob.Seen = true
-		func() {
+		done := make(chan struct{})
+		go func() {
+			defer close(done)
 			defer func() {
 				if r := recover(); r != nil {
 					ob.R = 1
@@ -295,6 +298,17 @@ func runMemCase(c *memCase) {
 				}
 			}
 		}()
+		select {
+		case <-done:
+		case <-time.After(4 * time.Second):
+			// the operation is stuck (e.g. Close waiting for a reader count that can never reach zero): report it and
+			// abandon the case; its goroutine stays parked
+			memStuck++
+			viol("op %d (%s) did not return within 4 s: deadlock (reader count can no longer reach zero?)", i, op.K)
+			ob.R = 1
+			c.Obs = append(c.Obs, ob)
+			return
+		}
 		ob.Ev = mc.events
 		if mc.last != nil {
 			ob.Mapped, ob.Locked, ob.Prot = mc.last.mapped, mc.last.locked, mc.last.prot
@@ -314,6 +328,9 @@ func runMemCase(c *memCase) {
 		c.Obs = append(c.Obs, ob)
 	}
 }
+
+// memStuck counts operations that never returned; after a few the run stops early (every further case would wait as well)
+var memStuck int
 
 func wasClosed(c *memCase, upto int) bool {
 	for j := 0; j < upto && j < len(c.Obs); j++ {
@@ -419,6 +436,9 @@ func runMem(a *args) error {
 						for _, cl := range [][]int{nil, {0}, {1}, {2}, {0, 1}, {1, 2}} {
 							c := &memCase{Impl: "protectedmemory", Ops: []memOp{{K: k, Size: 16, Plan: p}, {K: "with", Depth: 1, Plan: follow}, {K: "with"},
 								{K: "close", Plan: cl}, {K: "close"}, {K: "with"}, {K: "isclosed"}}}
+							if memStuck >= 3 {
+								continue
+							}
 							runMemCase(c)
 							out = append(out, c)
 						}
@@ -434,6 +454,9 @@ func runMem(a *args) error {
 			impl = "memguard"
 		}
 		c := genMemCase(r, impl, faulty)
+		if memStuck >= 3 {
+			break
+		}
 		runMemCase(c)
 		out = append(out, c)
 	}
